@@ -74,6 +74,13 @@ CLAIMED["C37"] = {
   "design_ref": "DESIGN.md section 4 C37",
 }
 
+CLAIMED["C13"] = {
+  "text": "Static decision of the coverage, extent, value-family and mask-gating clauses: reset_data writes every State.INTEGRATION field and every Data field step() reads from before the call, each write covers the declared extent of its dimension, state fields get the value family of a fresh Data, every write of the masked kernels is dominated by reset_in[world] and none touches a cell without a world dimension.",
+  "note": STATIC_NOTE,
+  "technique": "write-set vs live-in set comparison on host effect traces + symbolic extent reasoning over loop/launch bounds and guards (R-RESET, R-GATE, R-WORLD.5)",
+  "design_ref": "DESIGN.md section 4 C13",
+}
+
 NOT_APPLICABLE = {
   "C06": "optimality of an iterative float solve is a runtime quantity; no structural necessary condition beyond what C24/C25 decide",
   "C18": "equivalence of broadphases depends on geometric conservativeness of numeric filters and sort/scan arithmetic; a sibling text-diff of the NXN/SAP kernels would alarm on harmless refactors",
